@@ -5,7 +5,9 @@ temporary directory outside /repo and /verif, removed afterwards) and the same c
 copy.  A mutant is *detected* when the check reports a failing instance whose key was not failing
 on the unmodified tree (or when it can no longer analyse: counted separately).  An unedited twin
 copy must produce no new key.  Misses are printed as SELFTEST-MISS and recorded in the evidence;
-they never change the verdict about /repo.
+they never change the verdict about /repo.  Five behaviour-preserving twins (unedited, re-printed
+with ast.unparse, locals renamed, arms of every two-armed `if` swapped, a debug log call added to
+every function and with-block) must each give exactly the verdict of the original tree.
 """
 
 from __future__ import annotations
@@ -52,10 +54,10 @@ def _run_one(args) -> dict:
     tmp = Path(tempfile.mkdtemp(prefix=f"sa-mut-{prop}-"))
     try:
         _copy_tree(Path(src_root), tmp)
-        if name in ("twin-unparse", "twin-rename"):
+        if name in ("twin-unparse", "twin-rename", "twin-flip", "twin-log"):
             from .twin import rewrite_tree
 
-            rewrite_tree(tmp, rename=(name == "twin-rename"))
+            rewrite_tree(tmp, rename=(name == "twin-rename"), mode={"twin-flip": "flip", "twin-log": "log"}.get(name, ""))
             keys, err = _failing_keys(prop, tmp, tier)
             new = sorted(keys - set(baseline))
             gone = sorted(set(baseline) - keys)
@@ -106,7 +108,9 @@ def run_selftest(ctx: Context, mod) -> None:
     baseline = sorted({i.key for i in ctx.instances if not i.ok})
     jobs = [(ctx.prop, str(ctx.repo.root), "twin-unedited", [], baseline, ctx.tier),
             (ctx.prop, str(ctx.repo.root), "twin-unparse", [], baseline, ctx.tier),
-            (ctx.prop, str(ctx.repo.root), "twin-rename", [], baseline, ctx.tier)]
+            (ctx.prop, str(ctx.repo.root), "twin-rename", [], baseline, ctx.tier),
+            (ctx.prop, str(ctx.repo.root), "twin-flip", [], baseline, ctx.tier),
+            (ctx.prop, str(ctx.repo.root), "twin-log", [], baseline, ctx.tier)]
     for name, edits in muts:
         jobs.append((ctx.prop, str(ctx.repo.root), name, edits, baseline, ctx.tier))
     # seeded changes (independent agents, confirmed by a demonstration): those recorded as caught by this property
@@ -126,8 +130,8 @@ def run_selftest(ctx: Context, mod) -> None:
     workers = min(16, max(1, len(jobs)))
     with ProcessPoolExecutor(max_workers=workers) as ex:
         results = list(ex.map(_run_one, jobs))
-    twins = results[:3]
-    results = [results[0]] + results[3:]
+    twins = results[:5]
+    results = [results[0]] + results[5:]
     twin = results[0]
     twin_ok = all(t["status"] == "missed" for t in twins)  # no key changes on unedited / re-printed / renamed copies
     for t in twins:
